@@ -224,6 +224,47 @@ def h07_e2e(S, backend="mem"):
     same(S, "parameters", sent[2], got[2])
 
 
+def h07_waiting_consumer(S):
+    """A consumer is already waiting while Job.enqueue() runs; storing the argument bucket takes time."""
+    import asyncio
+    from fractions import Fraction
+    from repid import Connection, InMemoryBucketBroker, InMemoryMessageBroker, Job
+    from repid._processor import _Processor
+
+    lat = S.real("bucket_store_latency_s", 0, Fraction(50, 1000))
+    bucket = S.flag("args_through_bucket")
+    out = {}
+
+    async def main(loop):
+        mb, ab = InMemoryMessageBroker(), InMemoryBucketBroker()
+        conn = Connection(mb, ab if bucket else None)
+        await mb.queue_declare("default")
+        orig = ab.store_bucket
+
+        async def slow_store(*a, **k):
+            await asyncio.sleep(lat)
+            return await orig(*a, **k)
+
+        ab.store_bucket = slow_store
+        cons = mb.get_consumer("default", ["job"])
+        await cons.start()
+        proc = _Processor(conn)
+
+        async def consumer():
+            got = await cons.consume()
+            out["payload"] = await proc.get_payload(got[1])
+
+        t = asyncio.create_task(consumer())
+        await asyncio.sleep(Fraction(5, 1000))
+        sent = await Job("job", args={"x": [1, 2, 3]}, id_="m1", _connection=conn).enqueue()
+        await asyncio.wait_for(t, timeout=2)
+        out["sent"] = sent
+
+    run_async(main)
+    S.cover("waiting-consumer")
+    S.check("consumer-sees-the-arguments", out["payload"] == out["sent"][1], info=f"{out['payload']!r} vs {out['sent'][1]!r}")
+
+
 def _e2e(backend):
     def scen(S):
         return h07_e2e(S, backend)
@@ -255,6 +296,9 @@ HARNESSES = [
             bounds={"argument values": "9 concrete representatives (nested JSON, dataclass, pydantic models, dates/durations, marker-like strings)",
                     "job settings": "priority in {LOW, MEDIUM, HIGH}; timeout/ttl/deferred_by/result_ttl any µs in [1 s, 100 y]; deferred_until any future µs; retries any int; every optional setting on/off; inline or bucket transport"},
             functions=["job.py:Job.enqueue", "_processor.py:_Processor.get_payload"], covers=["received"]),
+    Harness(name="H07-waiting-consumer", scenario=h07_waiting_consumer, workers=4,
+            bounds={"consumer": "already blocked in consume() when Job.enqueue() starts", "bucket store latency": "any real in [0, 50 ms]", "transport": "inline / bucket"},
+            functions=["job.py:Job.enqueue", "job.py:Job._construct_args", "_processor.py:_Processor.get_payload"], covers=["waiting-consumer"]),
     Harness(name="H07-e2e-redis", scenario=_e2e("redis"), workers=16, budget_s=900,
             bounds={"as H07-e2e-mem": "through RedisMessageBroker/RedisBucketBroker on fake servers"},
             functions=["connections/redis/message_broker.py:RedisMessageBroker.enqueue", "connections/redis/consumer.py:_RedisConsumer.consume_or_none"],
